@@ -535,7 +535,7 @@ func (d *Decoder) decodeNegative(rv reflect.Value, additional []byte) error {
 		return fmt.Errorf("%w: only primitive int(N) types supported",
 			ErrUnsupportedType{typeName: rv.Type().String()})
 	}
-	if u64 >= -math.MinInt64-1 || overflowsInt(-int64(u64)-1, kind) {
+	if u64 > math.MaxInt64 || overflowsInt(-int64(u64)-1, kind) {
 		return fmt.Errorf("%w: value overflows",
 			ErrUnsupportedType{typeName: rv.Type().String()})
 	}
